@@ -8,7 +8,7 @@ EXPLANATION = ('Loop summaries of every run loop compared with their specificati
                'iterations with one step each, row k, buffer [n_collect, n_chains, dim] permuted [1,0,2]); NUTSChain::run (row 0 = position at entry, loop 1..n_collect+n_discard, '
                'guard m >= n_discard, row m - n_discard => row r after n_discard + r transitions); NUTS::run (in-place order-preserving map, stack on dim 0). '
                'Step receivers are reached through &mut places without an intervening clone (continuation).')
-FLOORS = {'obligations': 81}   # counted on the reference tree; fewer instantiated obligations is reported, never passed silently
+FLOORS = {'obligations': 83}   # counted on the reference tree; fewer instantiated obligations is reported, never passed silently
 TECHNIQUE = 'loop summaries (trip counts, guards, affine row indices, carried places) + value-flow normal forms'
 STEP = 'core::MarkovChain::step'
 
@@ -97,6 +97,11 @@ def frames(ctx):
         ctx.unknown('C09.accessor', 'core::HasChains::chains_mut', 'impls', why='only %d implementation(s) of HasChains::chains_mut found (2 on the reference tree)' % len(acc))
     for b in acc:
         frame.accessor_pure(ctx, 'C09', b, 'chains')
+    cur = [b for b in ctx.facts.bodies if b.get('container') == 'trait_impl' and strip_generics(b.get('trait') or '') == 'core::MarkovChain' and b.get('name') == 'current_state']
+    if len(cur) < 2:
+        ctx.unknown('C09.accessor', 'core::MarkovChain::current_state', 'impls', why='only %d implementation(s) of MarkovChain::current_state found (2 on the reference tree)' % len(cur))
+    for b in cur:
+        frame.accessor_pure(ctx, 'C09', b, 'current_state', mut=False)
     for mod in (C01, C02, C03, C05):
         got = ctx.borrow(mod.frame_rules, lambda oid: True)
         if not got:
